@@ -245,6 +245,13 @@ class Repo:
         return out
 
     def mro(self, c):
+        cache = self.__dict__.setdefault('_mro_cache', {})
+        if id(c) in cache:
+            return cache[id(c)]
+        r = cache[id(c)] = self._mro(c)
+        return r
+
+    def _mro(self, c):
         out, seen = [], set()
 
         def rec(k):
@@ -261,7 +268,10 @@ class Repo:
         return any(k is d for k in self.mro(c))
 
     def subclasses(self, c):
-        return [k for k in self.all_classes(c.pkg) if self.is_subclass(k, c)]
+        cache = self.__dict__.setdefault('_sub_cache', {})
+        if id(c) not in cache:
+            cache[id(c)] = [k for k in self.all_classes(c.pkg) if self.is_subclass(k, c)]
+        return cache[id(c)]
 
     def lookup_method(self, c, name):
         for k in self.mro(c):
